@@ -95,6 +95,8 @@ def prog_of(c: dict) -> GProg:
             kw["consts"] = tuple(_get(c["consts"], j))
         if j in _keys(c.get("cflag")):
             kw["const_flag"] = _get(c["cflag"], j)
+        if j in c.get("retnone", ()):
+            kw["retnone"] = True
         if j in _keys(c.get("tags")):
             t = _get(c["tags"], j)
             kw["tag"] = tuple(t) if isinstance(t, list) else t
@@ -141,7 +143,7 @@ def cflag_variants(n: int) -> list:
 
 def single_selections(p: GProg) -> list:
     """SELm: whole DAG, each single target, each single root, each single exclude (those inside the quantifier)."""
-    out = [None]
+    out = [None, {"T": [], "X": None, "R": None}, {"T": None, "X": None, "R": []}, {"T": None, "X": [], "R": None}]
     n = len(p.nodes)
     for i in range(n):
         out.append({"T": [i], "X": None, "R": None})
@@ -201,6 +203,9 @@ def cross_families(tier: str):
                 for build_mc, mc in ((3, 1), (4, 2), (1, 3)):
                     yield dict(n=n, es=es, res=res, mc=mc, reconf={"build_mc": build_mc, "mc": mc, "via": "dict"}, seq=(False,) * n,
                                is_async=False, ties=0)
+    yield from conf_family(tier)
+    yield from partial_conf_family(tier)
+    yield from debug_selection_family(tier)
     # (d) several flags taken from parts of one result, every subset of them falsy
     for n in (3, 4):
         for es in shapes(n):
@@ -213,6 +218,80 @@ def cross_families(tier: str):
                 for res in ("t" * n, ("at" * n)[:n]):
                     for mc in (1, 2):
                         yield dict(n=n, es=es4, falsy=falsy, res=res, mc=mc, is_async=False, ties=0)
+
+
+def conf_family(tier: str):
+    """(e) is_sequential / priority set through config_from_dict after the build: by id and by a tag shared by several
+    nodes, for all nodes or a subset (partial configuration), to zero from non-zero, before and after a first call."""
+    q = tier == "quick"
+    for n in (2, 3, 4):
+        for es in shapes(n):
+            if n == 4 and len(es) > (1 if q else 3):
+                continue
+            finals = []
+            for seq in seq_menu(n)[: n + 1] + ([tuple(j < 2 for j in range(n))] if n >= 3 else []):
+                for prio in ((0,) * n, tuple(range(n - 1, -1, -1)), tuple(2 if j % 2 else 0 for j in range(n))):
+                    finals.append((seq, prio))
+            for seq, prio in finals:
+                inits = [((False,) * n, tuple(3 for _ in range(n))), (tuple(not x for x in seq), tuple(reversed(prio)))]
+                for init_seq, init_prio in inits:
+                    if (tuple(init_seq), tuple(init_prio)) == (tuple(seq), tuple(prio)):
+                        continue
+                    for via in ("id", "tag"):
+                        for after_warm in (False, True):
+                            if q and after_warm and via == "tag":
+                                continue
+                            for res in (("t" * n, ("mt" * n)[:n]) if q else ("t" * n, ("mt" * n)[:n], "a" * n)):
+                                yield dict(n=n, es=es, seq=seq, prio=prio, res=res, mc=2 if n < 4 else 3, is_async=False, ties=0,
+                                           conf={"via": via, "init": {"seq": list(init_seq), "prio": list(init_prio)}, "after_warm": after_warm})
+            # partial configuration: only node 0 is (re)configured; the others keep their built attributes
+            for prio in (tuple(range(n - 1, -1, -1)), tuple(2 if j == n - 1 else 0 for j in range(n))):
+                init_prio = list(prio)
+                init_prio[0] = prio[0] + 2
+                yield dict(n=n, es=es, seq=(False,) * n, prio=prio, res="t" * n, mc=1, is_async=False, ties=0,
+                           conf={"via": "id", "nodes": [0], "init": {"seq": [False] * n, "prio": init_prio}, "after_warm": False})
+                yield dict(n=n, es=es, seq=(False,) * n, prio=prio, res=("mt" * n)[:n], mc=2, is_async=False, ties=0,
+                           conf={"via": "id", "nodes": [0], "keys": "prio", "init": {"seq": [False] * n, "prio": init_prio}, "after_warm": True})
+
+
+def partial_conf_family(tier: str):
+    """one node's priority is reconfigured (config names only that node), everything else keeps its built value"""
+    q = tier == "quick"
+    for n in (3, 4):
+        for es in shapes(n):
+            if n == 4 and len(es) > (2 if q else 4):
+                continue
+            for prio in prio_menu(n)[1:] + [tuple(3 if j == n - 1 else 0 for j in range(n)), tuple(j % 2 * 2 + 1 for j in range(n))]:
+                for k in range(n):
+                    for delta in (2, -2):
+                        init_prio = list(prio)
+                        init_prio[k] = prio[k] + delta
+                        for mc in ((1,) if q else (1, 2)):
+                            yield dict(n=n, es=es, seq=(False,) * n, prio=prio, res="t" * n, mc=mc, is_async=False, ties=0,
+                                       conf={"via": "id", "nodes": [k], "keys": "prio", "init": {"seq": [False] * n, "prio": init_prio}, "after_warm": False})
+
+
+def debug_selection_family(tier: str):
+    """debug nodes with priorities, RUN_DEBUG_NODES on, sub-graph selections: pulled-in debug nodes are scheduled by priority too"""
+    import itertools
+    q = tier == "quick"
+    for n in (3, 4):
+        for es in shapes(n):
+            if n == 4 and len(es) > (3 if q else 5):
+                continue
+            succ = {i: {j for (a, j) in es if a == i} for i in range(n)}
+            for k in range(1, n):
+                for dbg in itertools.combinations(range(n), k):
+                    if not all(succ[i] <= set(dbg) for i in dbg):
+                        continue
+                    for prio in (tuple(5 if j in dbg else 1 for j in range(n)), tuple(range(n))):
+                        base = dict(n=n, es=es, debug=list(dbg), debug_on=True, prio=prio, res="t" * n, mc=1, is_async=False, ties=0)
+                        yield dict(base, sel=None)
+                        for i in range(n):
+                            if i not in dbg:
+                                yield dict(base, sel={"T": [i], "X": None, "R": None})
+                        for i in dbg:
+                            yield dict(base, sel={"T": None, "X": [i], "R": None})
 
 
 def foreign_quick_cases(own: str):
